@@ -5,4 +5,6 @@ CONSTANTS
   WeekRefDays <- WRefs
   RefTimes <- OTimes
   Layouts = {1, 2}
+  OtherCultures = {"fr-fr", "es-es", "pt-br", "de-de", "it-it", "nl-nl", "zh-cn"}
+  OtherMonthDays <- QOtherMD
 CHECK_DEADLOCK FALSE
